@@ -23,12 +23,12 @@ Proof.
 Qed.
 
 Definition ob_is_register (r s : Z) (t : ob_tok) (op : ob_op) : Prop :=
-  exists o, op = OpRegister r s t o.
+  exists o, op = ObOpRegister r s t o.
 
 (* the de-registering op, then anything but a registration of (r, s, t): nothing for (r, s, t) *)
 Lemma ob_silent_after : forall p modes pre dereg mid r s t,
-  0 <= pr_max_non p -> pr_max_fail p <= 1 ->
-  (forall c st outs st', ac_wf (as_res st) -> ac_step c st (dereg, outs) = AcOk st' ->
+  0 <= obpr_max_non p -> obpr_max_fail p <= 1 ->
+  (forall c st outs st', ac_wf (acas_res st) -> ac_step c st (dereg, outs) = AcOk st' ->
                          ac_reg st' r s t = false) ->
   (forall op, In op mid -> ~ ob_is_register r s t op) ->
   forall e out,
@@ -36,7 +36,7 @@ Lemma ob_silent_after : forall p modes pre dereg mid r s t,
     ac_out_key out <> Some (r, s, t).
 Proof.
   intros p modes pre dereg mid r s t Hmn Hmf Hd Hmid e out He Hout.
-  set (c := mk_cf (map fst modes) (pr_nstart p) (pr_max_non p) false).
+  set (c := ac_mk_cf (map fst modes) (obpr_nstart p) (obpr_max_non p) false).
   pose proof (ob_model_accepted p modes ((pre ++ [dereg]) ++ mid) Hmn Hmf) as Hacc.
   fold c in Hacc. unfold ac_accepts in Hacc.
   destruct (ac_run c (ac_init c) 0 (snd (ob_run p (ob_init modes) ((pre ++ [dereg]) ++ mid))))
@@ -66,10 +66,10 @@ Qed.
 (* C11 for the model, in its own terms: after an Observe:1 request with the observer's token no
    notification, error response or 4.04 is sent to it until it registers again *)
 Theorem ob_model_silent_after_cancel : forall p modes pre mid r s t o,
-  0 <= pr_max_non p -> pr_max_fail p <= 1 ->
+  0 <= obpr_max_non p -> obpr_max_fail p <= 1 ->
   (forall op, In op mid -> ~ ob_is_register r s t op) ->
   forall e out,
-    In e (snd (ob_run p (fst (ob_run p (ob_init modes) (pre ++ [OpCancel r s t o]))) mid)) -> In out (snd e) ->
+    In e (snd (ob_run p (fst (ob_run p (ob_init modes) (pre ++ [ObOpCancel r s t o]))) mid)) -> In out (snd e) ->
     ac_out_key out <> Some (r, s, t).
 Proof.
   intros p modes pre mid r s t o Hmn Hmf Hmid. apply ob_silent_after; try assumption.
@@ -78,10 +78,10 @@ Qed.
 
 (* ... after the session is lost: nothing to any observer of that session *)
 Theorem ob_model_silent_after_session_lost : forall p modes pre mid r s t,
-  0 <= pr_max_non p -> pr_max_fail p <= 1 ->
+  0 <= obpr_max_non p -> obpr_max_fail p <= 1 ->
   (forall op, In op mid -> ~ ob_is_register r s t op) ->
   forall e out,
-    In e (snd (ob_run p (fst (ob_run p (ob_init modes) (pre ++ [OpSessionLost s]))) mid)) -> In out (snd e) ->
+    In e (snd (ob_run p (fst (ob_run p (ob_init modes) (pre ++ [ObOpSessionLost s]))) mid)) -> In out (snd e) ->
     ac_out_key out <> Some (r, s, t).
 Proof.
   intros p modes pre mid r s t Hmn Hmf Hmid. apply ob_silent_after; try assumption.
@@ -90,10 +90,10 @@ Qed.
 
 (* ... after the resource was deleted (and created again): nothing to its former observers *)
 Theorem ob_model_silent_after_delete : forall p modes pre mid r s t ca,
-  0 <= pr_max_non p -> pr_max_fail p <= 1 ->
+  0 <= obpr_max_non p -> obpr_max_fail p <= 1 ->
   (forall op, In op mid -> ~ ob_is_register r s t op) ->
   forall e out,
-    In e (snd (ob_run p (fst (ob_run p (ob_init modes) (pre ++ [OpDeleteResource r ca]))) mid)) -> In out (snd e) ->
+    In e (snd (ob_run p (fst (ob_run p (ob_init modes) (pre ++ [ObOpDeleteResource r ca]))) mid)) -> In out (snd e) ->
     ac_out_key out <> Some (r, s, t).
 Proof.
   intros p modes pre mid r s t ca Hmn Hmf Hmid. apply ob_silent_after; try assumption.
